@@ -9,6 +9,9 @@ package filters
 // allocation only, so a write to caller-owned memory fails a frame obligation (C03).
 
 // ---- numeric filters (C17) -------------------------------------------------------
+//@ globalinv filters.errDivisionByZero: self != nil
+//@ macro bint = (is(b, int) || is(b, int8) || is(b, int16) || is(b, int32) || is(b, int64) || is(b, uint) || is(b, uint8) || is(b, uint16) || is(b, uint32) || is(b, uint64))
+//@ macro bflt = (is(b, float32) || is(b, float64))
 
 //@ func filter "plus"
 //@ props C17 C03 C01
@@ -38,12 +41,12 @@ package filters
 //@ func filter "divided_by"
 //@ props C17 C18 C03 C01
 //@ panics nothing
-//@ ensures intDivisor: isint(kind(b)) && kind(b) != Uintptr && pl_int(b) != 0 && pl_int(b) <= 9223372036854775807 ==> result1 == nil && result0 == box(tdiv(f2i(a), pl_int(b)), int64)
-//@ ensures hugeDivisor: isint(kind(b)) && kind(b) != Uintptr && pl_int(b) > 9223372036854775807 ==> result1 == nil && result0 == box(0, int64)
-//@ ensures intZero: isint(kind(b)) && kind(b) != Uintptr && pl_int(b) == 0 ==> result1 != nil && result0 == nil
-//@ ensures floatDivisor: isflt(kind(b)) && !feq(pl_flt(b), i2f(0)) ==> result1 == nil && is(result0, float64) && same(as(result0, float64), fdiv(a, pl_flt(b)))
-//@ ensures floatZero: isflt(kind(b)) && feq(pl_flt(b), i2f(0)) ==> result1 != nil && result0 == nil
-//@ ensures otherDivisor: !isint(kind(b)) && !isflt(kind(b)) ==> result1 != nil && result0 == nil
+//@ ensures intDivisor: @bint && pl_int(b) != 0 && pl_int(b) <= 9223372036854775807 ==> result1 == nil && result0 == box(tdiv(f2i(a), pl_int(b)), int64)
+//@ ensures hugeDivisor: @bint && pl_int(b) > 9223372036854775807 ==> result1 == nil && result0 == box(0, int64)
+//@ ensures intZero: @bint && pl_int(b) == 0 ==> result1 != nil
+//@ ensures floatDivisor: @bflt && !feq(pl_flt(b), i2f(0)) ==> result1 == nil && is(result0, float64) && same(as(result0, float64), fdiv(a, pl_flt(b)))
+//@ ensures floatZero: @bflt && feq(pl_flt(b), i2f(0)) ==> result1 != nil
+//@ ensures otherDivisor: !@bint && !@bflt ==> result1 != nil && result0 == nil
 
 //@ func filter "ceil"
 //@ props C17 C03 C01
